@@ -150,6 +150,21 @@ def make_string_elems(n, m, pool="TEXT", props=("C02",), known=()):
     return h, dict(reset=common.nbdime_reset)
 
 
+SMALL_ALPHABET = [None, True, 1, 1.0, 0, "a"]
+
+
+def make_concrete(n, m, props=("C02",), known=()):
+    """Lists over a small alphabet of *concrete* JSON scalars whose Python
+    equality / hashing conflates JSON types (True/1/1.0, False/0/0.0): pure
+    enumeration (no symbolic leaf), complementing the symbolic shards for code
+    that hashes or otherwise concretises leaves."""
+    def h(E):
+        a = [SMALL_ALPHABET[E.choice("a%d" % i, len(SMALL_ALPHABET))] for i in range(n)]
+        b = [SMALL_ALPHABET[E.choice("b%d" % i, len(SMALL_ALPHABET))] for i in range(m)]
+        roundtrip(E, a, b, props, known)
+    return h, dict(reset=common.nbdime_reset)
+
+
 def shards(tier, props, known):
     """The shard list shared by C02 / C11 / C13: (family, key, params)."""
     kw = dict(props=tuple(props), known=tuple(known))
@@ -177,6 +192,10 @@ def shards(tier, props, known):
         out.append(("make_nested", "nestedD-abc",
                     dict(root="D", alts="ALTS_QUICK", na=0, keys=("a", "b", "c"), **kw)))
         out.append(("make_nested", "deepD-ab", dict(root="D", alts="ALTS_DEEP", na=0, **kw)))
+    M = 2 if tier == "quick" else 3
+    for n in range(M + 1):
+        for m in range(M + 1):
+            out.append(("make_concrete", "alphabet-%dx%d" % (n, m), dict(n=n, m=m, **kw)))
     P = len(pools.TEXT)
     step = 4
     for lo in range(0, P, step):
@@ -194,6 +213,7 @@ BOUNDS = {
         "objects": "all pairs of objects with keys within {a,b}, each value absent or drawn from docs.ALTS_QUICK",
         "strings": "all ordered pairs of the %d-string pool gen/pools.TEXT (enumeration over the pool, not symbolic)" % len(pools.TEXT),
         "string-elements": "lists of 0..2 pooled strings (6 pool items) followed by one symbolic scalar, all pairs",
+        "small-alphabet": "all pairs of lists of 0..2 (3 thorough) concrete scalars over {null, true, 1, 1.0, 0, 'a'} (enumeration; covers code that hashes leaves)",
     },
     "thorough": {
         "flat-lists": "all pairs of lists of 0..5 JSON scalars, every leaf symbolic",
